@@ -1,6 +1,8 @@
 import QipVerif.Lemmas.VqaList
 import QipVerif.Lemmas.VqaMonoid
 import QipVerif.Lemmas.VqaCalc
+import QipVerif.Lemmas.VqaExp
+import QipVerif.Lemmas.VqaSem
 /-!
 # C19 — the variational-algorithm gradient is the derivative of the cost
 
@@ -10,12 +12,20 @@ loop).  `jacLoop`/`computeJac false` model the loop repaired by `fixes/C19-1.pat
 `jacLoopOrig`/`computeJac true` model the loop as shipped, for which the property is refuted
 (`C19_counterexample_orig`) and only `jac_shape_and_entries_partial` holds.
 
-Not proved here (trusted numerics, see notes/C19.md): that `VQABlock.get_unitary_derivative`
-returns the derivative of `VQABlock.get_unitary` (`d/dθ e^{-iθH} = e^{-iθH}(-iH)` and
-`scipy.linalg.expm_frechet`); it enters `jac_entry_is_partial_derivative` as the hypothesis `hP`.
+The matrix calculus is proved with Mathlib's matrix exponential (`NormedSpace.exp`):
+`ham_block_derivative` (`d/dθ e^{-iθH} = e^{-iθH}(-iH)`, every `H`), `exp_directional_derivative`
+(Duhamel: for arbitrary non-commuting `A`, `E` the derivative of `t ↦ exp(A + tE)` at 0 exists and is
+`expFrechet A E = ∫₀¹ e^{sA} E e^{(1-s)A} ds`, the value at `E` of the Fréchet derivative of `exp` at `A`;
+`= e^A E` when `A`, `E` commute), `block_derivative_is_partial` (every block kind) and the headline
+`jac_is_gradient`: for every block list, layer count, parameter vector and index list, entry `j` of the
+jacobian the model computes is the partial derivative (`HasDerivAt`) of `Re ⟨ψ|U(θ)†OU(θ)|ψ⟩`.
+
+Trusted (see notes/C19.md): floating point; `Qobj.expm` computes `NormedSpace.exp`;
+`scipy.linalg.expm_frechet(A, E)` computes the derivative of `exp` at `A` in direction `E`
+(= `expFrechet A E`, by `exp_directional_derivative` the only candidate).
 -/
 namespace QipVerif.C19
-open QipVerif.Vqa Matrix
+open QipVerif.Vqa Matrix NormedSpace
 
 /-- **Block `k` of the series is gate `k` of the constructed circuit and receives the slice
 `angles[i : i + n]`**, where `i` is the number of parameters of the blocks before it in the series
@@ -137,6 +147,140 @@ theorem jac_default_full (bs : List Block) (L : Nat) (es : List JEntry) (hL : 0 
 -- non-vacuity: initial Hamiltonian, 2-term ParameterizedHamiltonian, fixed unitary, 2 layers, subset of indices
 example : computeJac false [⟨.ham, 0, true⟩, ⟨.pham, 2, false⟩, ⟨.unitary, 0, false⟩] 2 5 (some [4, 0, 2, 2, 7]) =
     .ok [⟨0, 0, 0, 1, 0⟩, ⟨1, 1, 1, 2, 1⟩, ⟨3, 1, 3, 2, 1⟩] := by decide
+
+/-! ## The matrix calculus: block derivatives are derivatives (Mathlib's matrix exponential) -/
+
+/-- **`d/dθ exp(-iθH) = exp(-iθH) · (-iH) = (-iH) · exp(-iθH)`** for every complex square matrix `H`
+of any size and every real `θ` — what `get_unitary_derivative` returns for a Hamiltonian block
+(`self.get_unitary(angles) * -1j * self.operator`). -/
+theorem ham_block_derivative {n : Type} [Fintype n] [DecidableEq n] (H : Matrix n n ℂ) (θ : ℝ) :
+    HasDerivAt (fun t : ℝ => exp ((-Complex.I * (t : ℂ)) • H))
+      (exp ((-Complex.I * (θ : ℂ)) • H) * ((-Complex.I) • H)) θ ∧
+    exp ((-Complex.I * (θ : ℂ)) • H) * ((-Complex.I) • H) =
+      ((-Complex.I) • H) * exp ((-Complex.I * (θ : ℂ)) • H) :=
+  ⟨hasDerivAt_exp_ham H θ, exp_ham_comm H θ⟩
+
+-- non-vacuity: a non-diagonal 2×2 generator
+example : HasDerivAt (fun t : ℝ => exp ((-Complex.I * (t : ℂ)) • pauliX))
+    (exp ((-Complex.I * ((0.3 : ℝ) : ℂ)) • pauliX) * ((-Complex.I) • pauliX)) 0.3 :=
+  (ham_block_derivative _ _).1
+
+/-- **Derivative of the matrix exponential in an arbitrary direction (Duhamel).**  For all complex
+square matrices `A`, `E` — no commutation hypothesis — `t ↦ exp(A + t•E)` is differentiable at `0`
+with derivative `expFrechet A E = ∫₀¹ exp(s•A) · E · exp((1-s)•A) ds`; this is the only possible
+derivative; and when `A` and `E` commute it is `exp A · E = E · exp A`. -/
+theorem exp_directional_derivative {n : Type} [Fintype n] [DecidableEq n] (A E : Matrix n n ℂ) :
+    HasDerivAt (fun t : ℝ => exp (A + t • E)) (expFrechet A E) 0 ∧
+    (∀ D, HasDerivAt (fun t : ℝ => exp (A + t • E)) D 0 → D = expFrechet A E) ∧
+    (Commute A E → expFrechet A E = exp A * E ∧ expFrechet A E = E * exp A) :=
+  ⟨hasDerivAt_exp_add_smul A E, fun D h => expFrechet_unique A E D h,
+    fun h => ⟨expFrechet_of_commute A E h, expFrechet_of_commute' A E h⟩⟩
+
+-- non-vacuity: a non-commuting pair
+example : ¬ Commute pauliX pauliZ ∧
+    HasDerivAt (fun t : ℝ => exp (pauliX + t • pauliZ)) (expFrechet pauliX pauliZ) 0 :=
+  ⟨pauliXZ_not_commute, (exp_directional_derivative _ _).1⟩
+
+open scoped Matrix.Norms.Operator in
+/-- `expFrechet A E` is the Fréchet derivative of `exp` at `A` (w.r.t. the operator norm; all norms on
+matrices are equivalent) applied to `E` — the mathematical quantity `scipy.linalg.expm_frechet(A, E)`
+is documented to compute. -/
+theorem expFrechet_is_fderiv {n : Type} [Fintype n] [DecidableEq n] (A E : Matrix n n ℂ) :
+    DifferentiableAt ℝ (exp : Matrix n n ℂ → Matrix n n ℂ) A ∧
+    fderiv ℝ (exp : Matrix n n ℂ → Matrix n n ℂ) A E = expFrechet A E :=
+  ⟨exp_differentiableAt A, expFrechet_eq_fderiv A E⟩
+
+/-- **For every kind of block, `get_unitary_derivative(args, term)` is the partial derivative of
+`get_unitary(args)` with respect to `args[term]`**: Hamiltonian blocks (`exp(-iθH)`),
+`ParameterizedHamiltonian` blocks (`exp(-i(Σ_j p_j H_j + C))`, derivative = `expFrechet` at
+`-i(Σ p_j H_j + C)` in direction `-iH_term`, arbitrary non-commuting terms); fixed unitaries and
+native gates have no parameter. -/
+theorem block_derivative_is_partial {n : Type} [Fintype n] [DecidableEq n] (b : SBlock n)
+    (args : List ℝ) (term : Nat) (hn : args.length = b.toBlock.nparams) (ht : term < b.toBlock.nparams) :
+    MDeriv (fun t => b.unitary (args.set term t)) (b.dUnitary args term) (args.getD term 0) :=
+  SBlock.mderiv b args term hn ht
+
+-- non-vacuity: two non-commuting terms plus a constant term, derivative w.r.t. the second parameter
+example : MDeriv (fun t => (SBlock.pham [pauliX, pauliZ] pauliY false).unitary
+      ([0.3, 0.7].set 1 t))
+    ((SBlock.pham [pauliX, pauliZ] pauliY false).dUnitary [0.3, 0.7] 1)
+    0.7 := by
+  have := block_derivative_is_partial
+    (SBlock.pham [pauliX, pauliZ] pauliY false) [0.3, 0.7] 1 rfl
+    (by simp [SBlock.toBlock, Block.nparams])
+  simpa using this
+
+/-- **The jacobian is the gradient.**  For every list of blocks (fixed unitaries, native gates,
+Hamiltonian blocks `exp(-iθH)`, ParameterizedHamiltonian blocks with any number of arbitrary terms and
+a constant term; any initial flags), every number of layers `L ≥ 1`, every parameter vector `θ`, every
+`indices_to_compute`, every observable `O` and state `ψ`: whenever the (repaired) `compute_jac`
+returns, it returns `es.map (jacValue …)` where
+
+* the parameters of `es` are exactly the requested free parameters in increasing order, and
+* for every entry `e`, `jacValue e` — the number the code computes as
+  `cost_derivative(U, U_prods_back[n-1-k] · get_unitary_derivative(θ[start:start+n], term) · U_prods[k])` —
+  **is the partial derivative with respect to parameter `e.param` of
+  `θ ↦ Re ⟨ψ| U(θ)† O U(θ) |ψ⟩`**, `U(θ)` the ordered product of the propagators of
+  `construct_circuit(θ)` (`HasDerivAt` in the coordinate `θ[e.param]`, all other coordinates fixed). -/
+theorem jac_is_gradient {n : Type} [Fintype n] [DecidableEq n] (sbs : List (SBlock n)) (L : Nat)
+    (θ : List ℝ) (idx : Option (List Int)) (es : List JEntry) (hL : 0 < L)
+    (h : computeJac false (sbs.map SBlock.toBlock) L θ.length idx = .ok es)
+    (O : Matrix n n ℂ) (ψ : n → ℂ) :
+    es.map JEntry.param =
+        (List.range (freeParams (sbs.map SBlock.toBlock) L)).filter
+          (fun p => (indices θ.length idx).contains ((p : Nat) : Int)) ∧
+    ∀ e ∈ es, e.param < θ.length ∧
+      HasDerivAt (fun t => (costOf sbs L ψ O (θ.set e.param t)).re) (jacValue sbs L ψ O θ e)
+        (θ.getD e.param 0) := by
+  obtain ⟨hshape, hent⟩ := jac_shape_and_entries _ L _ idx es hL h
+  refine ⟨hshape, fun e he => ?_⟩
+  obtain ⟨jb, hget, hblk, _, hn, hstart, hterm⟩ := hent e he
+  have hterm' : e.term < jb.2.nparams := hn ▸ hterm
+  have hb := seriesErr_none_bound _ _ 0 (computeJac_ok h).1 e.k jb hget (by omega)
+  rw [Nat.zero_add, ← hstart] at hb
+  obtain ⟨P, hk, hset, hPθ, hP⟩ := entry_setup sbs L θ hL e.k e.term jb hget hterm' (by omega)
+  rw [← hstart] at hset hPθ hP
+  refine ⟨by unfold JEntry.param; omega, ?_⟩
+  have hd := jac_entry_is_partial_derivative (props sbs L θ) e.k hk P _ _ hPθ hP O ψ
+  unfold jacValue entryDeriv costOf JEntry.param
+  rw [hblk, hn]
+  simpa only [hset] using hd
+
+-- non-vacuity: an initial Hamiltonian block, a two-term ParameterizedHamiltonian with non-commuting terms,
+-- a fixed gate, two layers: 5 free parameters, indices {4, 0, 2} requested
+example : computeJac false ((
+      [SBlock.ham pauliX true, SBlock.pham [pauliX, pauliZ] 0 false,
+       SBlock.fixed pauliX false] : List (SBlock (Fin 2))).map SBlock.toBlock) 2
+      ([0.1, 0.2, 0.3, 0.4, 0.5] : List ℝ).length (some [4, 0, 2]) =
+    .ok [⟨0, 0, 0, 1, 0⟩, ⟨1, 1, 1, 2, 1⟩, ⟨3, 1, 3, 2, 1⟩] := by decide
+
+/-- With the default `indices_to_compute` and a vector of the right length: **entry `j` of the returned
+jacobian is `∂/∂θ_j` of the cost, for every free parameter `j`**. -/
+theorem jac_is_gradient_default {n : Type} [Fintype n] [DecidableEq n] (sbs : List (SBlock n)) (L : Nat)
+    (θ : List ℝ) (es : List JEntry) (hL : 0 < L)
+    (hθ : θ.length = freeParams (sbs.map SBlock.toBlock) L)
+    (h : computeJac false (sbs.map SBlock.toBlock) L θ.length none = .ok es)
+    (O : Matrix n n ℂ) (ψ : n → ℂ) :
+    es.length = θ.length ∧
+    ∀ j (hj : j < θ.length), ∃ e, es[j]? = some e ∧ e.param = j ∧
+      HasDerivAt (fun t => (costOf sbs L ψ O (θ.set j t)).re)
+        (((jacValues (· * ·) 1 (props sbs L θ) (entryDeriv sbs θ) (costDerivative ψ O) es)).getD j 0)
+        θ[j] := by
+  have hp : es.map JEntry.param = List.range θ.length := by
+    rw [hθ] at h ⊢; exact jac_default_full _ L es hL h
+  have hlen : es.length = θ.length := by simpa using congrArg List.length hp
+  refine ⟨hlen, fun j hj => ?_⟩
+  have hj' : j < es.length := by omega
+  refine ⟨es[j], List.getElem?_eq_getElem hj', ?_, ?_⟩
+  · have := congrArg (fun l => l[j]?) hp
+    simpa [List.getElem?_eq_getElem hj', List.getElem?_range hj] using this
+  · have hpj : es[j].param = j := by
+      have := congrArg (fun l => l[j]?) hp
+      simpa [List.getElem?_eq_getElem hj', List.getElem?_range hj] using this
+    have := ((jac_is_gradient sbs L θ none es hL h O ψ).2 es[j] (List.getElem_mem hj')).2
+    rw [hpj] at this
+    rw [jacValues_eq, List.getD_eq_getElem?_getD, List.getElem?_map, List.getElem?_eq_getElem hj']
+    simpa [List.getD_eq_getElem?_getD, List.getElem?_eq_getElem hj] using this
 
 /-- **The loop as shipped (`computeJac true`) satisfies the same statement when every block has at
 most one free parameter** — it then returns exactly what the repaired loop returns. -/
